@@ -45,6 +45,7 @@ def run(prog, tier, extra=None):
     R1 = res.rule("C13.compare", "accept paths of Block::validate pass cv.F == self.F for the rebroadcast commitment", floor=2)
     R3 = res.rule("C13.longest-chain-lookup", "consensus values look blocks up by height only through the longest-chain index", floor=1)
     R4 = res.rule("C13.handled", "each still-unspent output of an expiring transaction is rebroadcast or collected as fees", floor=1)
+    R5 = res.rule("C13.window-block-on-disk", "every block a full node stores is written to disk whatever its chain membership at that moment (the rebroadcast of block h + genesis_period reads block h from disk)", floor=1)
     R2 = res.rule("C13.derive", "Block::generate writes the rebroadcast commitment only under the ATR arm, for every ATR transaction", floor=3)
     bv = BlockValidate(prog)
     b, ch = bv.body, bv.ch
@@ -288,6 +289,44 @@ def run(prog, tier, extra=None):
         else:
             res.sample({"rule": R4, "queue": gcv.name_of(k) or "_%d" % k, "queued_at": [gcv.loc(x) for x in sorted(P)][:4], "handler_loop": gcv.loc(HL),
                         "verdict": "every queued output reaches the handler; every iteration rebroadcasts or collects"})
+
+    # R5: generate_consensus_values loads the block leaving the window from disk and, when the file is missing, silently derives no
+    # rebroadcasts. add_block_success is the only writer, and it runs once per block, when the block arrives - possibly as a
+    # side-chain block that joins the longest chain later. The write may therefore depend only on what kind of node/block this is
+    # (header-only block, browser, SPV mode), never on chain membership or other chain state at arrival time.
+    from ..expr import show as _sh5, walk as _wk5
+    abs5 = prog.body(CORE + "consensus::blockchain::Blockchain::add_block_success::{closure#0}")
+    if abs5 is None:
+        raise LookupError("Blockchain::add_block_success not found")
+    ch5 = Chaser(abs5)
+    writes = [bb for bb, t in abs5.calls() if "Storage::write_block_to_disk" in (t.get("res") or t.get("callee") or "")]
+    res.instance(R5)
+    if not writes:
+        res.add(Finding(R5, "C13.window-block-on-disk|not-written", "add_block_success no longer writes the block to disk", abs5.loc(0)))
+    else:
+        w = writes[0]
+        live5 = abs5.reachable(0)
+        reach_w = {bb: (w in abs5.reachable(bb) or bb == w) for bb in range(len(abs5.blocks))}
+        bad5, ok5 = [], []
+        for bb, blk in enumerate(abs5.blocks):
+            t = blk["t"]
+            if t["k"] != "switch" or bb not in live5 or not reach_w[bb] or all(reach_w[x] for x in abs5.succ(bb)):
+                continue
+            e = ch5.origin(t["discr"])
+            chain_state = [x for x in _wk5(e) if (x[0] == "field" and ((x[2].endswith("block::Block") and x[3] != "block_type")
+                                                                     or x[2].endswith("blockring::BlockRing") or x[2].endswith("ringitem::RingItem")))
+                           or (x[0] in ("call", "via") and ("BlockRing::" in x[1] or "is_block_indexed" in x[1] or "get_latest_block" in x[1]))]
+            if chain_state:
+                bad5.append((bb, e))
+            else:
+                ok5.append(_sh5(e)[:50])
+        if bad5:
+            bb, e = bad5[0]
+            res.add(Finding(R5, "C13.window-block-on-disk|conditional", "add_block_success writes the block to disk only when `%s`: a block stored while that does not hold (e.g. as a side-chain "
+                            "block that becomes part of the longest chain by a later reorganisation) is never written, and a genesis period later its unspent outputs are "
+                            "not rebroadcast because the block cannot be loaded" % _sh5(e)[:70], abs5.loc(bb)))
+        else:
+            res.sample({"rule": R5, "write": abs5.loc(w), "conditions": ok5, "verdict": "depends on node/block kind only"})
 
     # a rebroadcast "consumes" the expiring output only if its input is looked up in the UTXO set like any other input
     from ._include import include
